@@ -159,6 +159,10 @@ spif_mbuff_init_from_ptr(spif_mbuff_t self, spif_byteptr_t old, spif_memidx_t le
     REQUIRE_RVAL((old != (spif_byteptr_t) NULL), spif_mbuff_init(self));
     /* ***NOT NEEDED*** spif_obj_init(SPIF_OBJ(self)); */
     spif_obj_set_class(SPIF_OBJ(self), SPIF_CLASS(SPIF_MBUFFCLASS_VAR(mbuff)));
+    if (len <= 0) {
+        /* An empty sequence owns no block (a zero-size block would never be freed). */
+        return spif_mbuff_init(self);
+    }
     self->len = self->size = len;
     self->buff = (spif_byteptr_t) MALLOC(self->size);
     memcpy(self->buff, old, self->len);
@@ -177,6 +181,10 @@ spif_mbuff_init_from_buff(spif_mbuff_t self, spif_byteptr_t buff, spif_memidx_t 
         self->len = 0;
     }
     self->size = MAX(size, self->len);
+    if (self->size <= 0) {
+        /* An empty sequence without capacity owns no block. */
+        return spif_mbuff_init(self);
+    }
     self->buff = (spif_byteptr_t) MALLOC(self->size);
     if (buff != (spif_byteptr_t) NULL) {
         memcpy(self->buff, buff, self->len);
@@ -381,8 +389,12 @@ spif_mbuff_dup(spif_mbuff_t self)
     ASSERT_RVAL(!SPIF_MBUFF_ISNULL(self), (spif_mbuff_t) NULL);
     tmp = SPIF_ALLOC(mbuff);
     memcpy(tmp, self, SPIF_SIZEOF_TYPE(mbuff));
-    tmp->buff = (spif_byteptr_t) MALLOC(self->size);
-    memcpy(tmp->buff, self->buff, self->size);
+    if (self->size) {
+        tmp->buff = (spif_byteptr_t) MALLOC(self->size);
+        memcpy(tmp->buff, self->buff, self->size);
+    } else {
+        tmp->buff = (spif_byteptr_t) NULL;
+    }
     tmp->len = self->len;
     tmp->size = self->size;
     return tmp;
